@@ -1,6 +1,6 @@
 (** Specification vocabulary for C01 / C13 (readable in minutes; no reference to the cache,
     the sorter or evaluation order). *)
-From Coq Require Import ZArith List Bool.
+From Coq Require Import ZArith List Bool Permutation Relations.
 From MxlBase Require Import ListX.
 From Core Require Import Sort Model Cache Query.
 Import ListNotations.
@@ -80,3 +80,35 @@ Section Spec.
   | OP_par p : In p (keys (m_par m)) -> OnlyParams m p
   | OP_der d der : In (d, der) (m_der m) -> (forall a, In a (d_args der) -> OnlyParams m a) -> OnlyParams m d.
 End Spec.
+
+(** C02: "in whatever order parameters, derived quantities, reactions, surrogates and initial
+    assignments were declared": the two models hold the same components, container by container,
+    in any order (initial assignments live in the parameter / variable containers; a component
+    keeps its own content, e.g. the order of its argument list and of its stoichiometry). *)
+Record same_components (m m' : model) : Prop := {
+  sc_par : Permutation (m_par m) (m_par m');
+  sc_var : Permutation (m_var m) (m_var m');
+  sc_der : Permutation (m_der m) (m_der m');
+  sc_rxn : Permutation (m_rxn m) (m_rxn m');
+  sc_sur : Permutation (m_sur m) (m_sur m');
+  sc_dat : Permutation (m_dat m) (m_dat m')
+}.
+
+(** coefficient tables of the cache read as partial maps (variable, flux) -> entry *)
+Definition st_coef (c : cache) (x rn : name) : option Z :=
+  match lookup x (c_stoich c) with Some row => lookup rn row | None => None end.
+Definition dy_coef (c : cache) (x rn : name) : option (fnid * list name) :=
+  match lookup x (c_dyn_stoich c) with Some row => lookup rn row | None => None end.
+
+(** C02, bad graphs, said about the MODEL (not about the sorter's element list):
+    [names_missing]: some component names something that is neither a plain parameter / plain
+    variable / data set / time nor provided by any component;
+    [feeds m x y]: the component that provides [y] reads [x]; a dependency cycle is a name that
+    feeds itself through one or more steps (one step = a component naming itself). *)
+Definition names_missing (m : model) : Prop :=
+  exists nm cmp a, In (nm, cmp) (to_sort m) /\ In a (comp_args cmp)
+                   /\ ~ In a (base_available m)
+                   /\ ~ (exists nm' cmp', In (nm', cmp') (to_sort m) /\ In a (comp_outs nm' cmp')).
+Definition feeds (m : model) (x y : name) : Prop :=
+  exists nm cmp, In (nm, cmp) (to_sort m) /\ In x (comp_args cmp) /\ In y (comp_outs nm cmp).
+Definition has_cycle (m : model) : Prop := exists x, clos_trans name (feeds m) x x.
